@@ -323,7 +323,9 @@ static void parseQuery(void *inFrame, lltd_iface_state *st, void *iface_ctx) {
     }
 
     uint16_t num_descs = (st->see_list_count > max_descs) ? (uint16_t)max_descs : (uint16_t)st->see_list_count;
-    respH->numDescs = lltd_htons(num_descs);
+    /* MS-LLTD 2.2.3.10: the top bit of the count announces that more descriptors remain. */
+    bool more = st->see_list_count > (uint32_t)num_descs;
+    respH->numDescs = lltd_htons((uint16_t)(num_descs | (more ? 0x8000u : 0u)));
     offset += sizeof(*respH);
 
     probe_t *node = st->see_list;
@@ -349,7 +351,18 @@ static void parseQuery(void *inFrame, lltd_iface_state *st, void *iface_ctx) {
     (void)lltd_port_send_frame(iface_ctx, buffer, offset);
     lltd_port_free(buffer);
 
-    lltd_state_clear_seen_probes(st);
+    /* Release what has been reported; the rest is delivered by the next Query. */
+    probe_t *cur = st->see_list;
+    while (cur != node) {
+        probe_t *next = (probe_t *)cur->nextProbe;
+        lltd_port_free(cur);
+        st->see_list_count--;
+        cur = next;
+    }
+    st->see_list = node;
+    if (node == NULL) {
+        st->see_list_count = 0;
+    }
 }
 
 static void sendLargeTlvResponse(lltd_iface_state *st,
